@@ -129,13 +129,20 @@ func (n *CandidateNode) GetFileIndex() int {
 }
 
 func (n *CandidateNode) GetKey() string {
+	// the tag takes part: an integer key and a string key with the same text ({1: a, "1": b}) are two entries
 	keyPrefix := ""
 	if n.IsMapKey {
 		keyPrefix = fmt.Sprintf("key-%v-", n.Value)
+		if n.Tag != "!!str" {
+			keyPrefix = fmt.Sprintf("key-%v %v-", n.Tag, n.Value)
+		}
 	}
 	key := ""
 	if n.Key != nil {
 		key = n.Key.Value
+		if n.Key.Tag != "!!str" {
+			key = n.Key.Tag + " " + key
+		}
 	}
 	return fmt.Sprintf("%v%v - %v", keyPrefix, n.GetDocument(), key)
 }
